@@ -213,10 +213,10 @@ theorem tokSum_ge_mem {l : List Seq} {q : Seq} (h : q ∈ l) : q.tokens ≤ tokS
     · have := ih h1; omega
 
 /-- `min(bond, max(absolute minimum, ⌊multiplier · bond⌋))` -/
-def livSlashAmt (p : Params) (tokens : Nat) : Nat :=
+def livSlashAmt (p : SeqParams) (tokens : Nat) : Nat :=
   min tokens (max p.lsAbs ((p.lsMul.mulInt tokens).truncateInt).toNat)
 
-theorem livSlashAmt_le (p : Params) (tokens : Nat) : livSlashAmt p tokens ≤ tokens := Nat.min_le_left _ _
+theorem livSlashAmt_le (p : SeqParams) (tokens : Nat) : livSlashAmt p tokens ≤ tokens := Nat.min_le_left _ _
 
 /-- a slash without reward burns exactly `amt` whenever the module account covers it -/
 theorem slash_noreward {s : St} {q : Seq} {amt : Nat} (h1 : amt ≤ q.tokens) (h2 : amt ≤ s.modBal) :
@@ -235,10 +235,10 @@ theorem slash_noreward {s : St} {q : Seq} {amt : Nat} (h1 : amt ≤ q.tokens) (h
 theorem slashLiveness_spec {s : St} {r : Rollapp} {a : Addr} {q : Seq} (hc : Cust s)
     (hp : r.proposer = some a) (hq : getSeq s a = some q) :
     slashLiveness s r =
-      .ok (setSeq { s with modBal := s.modBal - livSlashAmt s.p q.tokens, burned := s.burned + livSlashAmt s.p q.tokens }
-            { q with tokens := q.tokens - livSlashAmt s.p q.tokens, dishonor := q.dishonor + s.p.dishonorL }) := by
-  have hle := livSlashAmt_le s.p q.tokens
-  have hmod : livSlashAmt s.p q.tokens ≤ s.modBal := by
+      .ok (setSeq { s with modBal := s.modBal - livSlashAmt s.sqp q.tokens, burned := s.burned + livSlashAmt s.sqp q.tokens }
+            { q with tokens := q.tokens - livSlashAmt s.sqp q.tokens, dishonor := q.dishonor + s.sqp.dishonorL }) := by
+  have hle := livSlashAmt_le s.sqp q.tokens
+  have hmod : livSlashAmt s.sqp q.tokens ≤ s.modBal := by
     have := tokSum_ge_mem (getSeq_mem hq); rw [← hc.bal] at this; omega
   unfold slashLiveness
   rw [hp]; dsimp only
@@ -295,7 +295,18 @@ theorem handleLivenessEvent_p (s : St) (ra : Nat) : (handleLivenessEvent s ra).p
   | some r =>
     cases hs : slashLiveness s r with
     | error e => rw [handleLivenessEvent_err hg hs]
-    | ok s1 => rw [handleLivenessEvent_eq hg hs]; exact (slashLiveness_same hs).2.2.2
+    | ok s1 => rw [handleLivenessEvent_eq hg hs]; exact (slashLiveness_same hs).peq
+
+theorem handleLivenessEvent_sqp (s : St) (ra : Nat) : (handleLivenessEvent s ra).sqp = s.sqp := by
+  cases hg : getRa s ra with
+  | none => rw [handleLivenessEvent_none hg]
+  | some r =>
+    cases hs : slashLiveness s r with
+    | error e => rw [handleLivenessEvent_err hg hs]
+    | ok s1 =>
+      rw [handleLivenessEvent_eq hg hs]
+      show s1.sqp = s.sqp
+      exact slashLiveness_sqp hs
 
 /-- events of other rollapps stay queued -/
 theorem handleLivenessEvent_lev_other {s : St} {ra : Nat} {e : Nat × Nat} (he : e ∈ s.lev) (hne : e.2 ≠ ra) :
@@ -435,7 +446,7 @@ theorem handle_futQ (s : St) (e : Nat × Nat) (es : List (Nat × Nat)) (h : Lev 
     · subst h2
       right; left
       show s.h < nextSlashHeight s1.p.lsBlocks s1.p.lsInterval s1.h r.cdStart
-      rw [hsame.2.2.2, hsame.2.2.1]; exact hfut
+      rw [hsame.peq, hsame.2.2.1]; exact hfut
     · have hx' : x ∈ s.ras := by rw [← hsame.1]; exact h2
       have hid : x.id ≠ e.2 := by
         intro hc; apply h3; show x.id = r.id; rw [getRa_id hg]; exact hc
